@@ -756,8 +756,9 @@ def rule_skip(ctx) -> RuleResult:
         "(a) H5Writer.update_concatenated_field, once the entity is on file and the values it fetched are not None, creates the "
         "dataset on every normal path (the Index and Data datasets of a name are written by the same code: a length-0 array is a "
         "value like any other); (b) Concatenator.update_array_attribute removes the old slice (fetch_start_index) and persists "
-        "(save_attribute) on every normal path, and stores the values whenever there are values and `remove` is not set",
-        floor=3,
+        "(save_attribute) on every normal path, and stores the values whenever there are values and `remove` is not set; "
+        "(c) Concatenator.delete_index_data removes the entry's row from the index table on every normal path (also for an empty slice)",
+        floor=4,
     )
     p = ctx.p
     # (a) the file writer
@@ -830,6 +831,29 @@ def rule_skip(ctx) -> RuleResult:
     if missed:
         res.find("Concatenator", "update_array_attribute", "values can be left unstored although present and `remove` unset", ua.where,
                  "the new values of a hole / data set are dropped on a condition about their content: the concatenated array keeps the previous values")
+    # (c) delete_index_data: whatever the slice holds (also nothing), the entry's row leaves the index table on every normal path
+    did = nview(ctx, conc.methods["delete_index_data"])
+    g = CFG(did.node)
+    dsc = Scope(did, p)
+
+    def drops_row(n):
+        # `self.index[<label>] = <new table>`: the table of the label re-bound (np.delete, a mask, ...) — not the in-place shift of a column
+        if n.kind != "stmt" or not isinstance(n.ast, ast.Assign):
+            return False
+        for t in n.ast.targets:
+            t = dsc.expand(t) if isinstance(t, ast.Name) else t
+            if isinstance(t, ast.Subscript) and dsc.text(t.value) in ("self.index", "self._index"):
+                return True
+        return False
+
+    if not any(drops_row(n) for n in g.nodes):
+        raise AnalysisError("Concatenator.delete_index_data: re-binding of self.index[<label>] (the row removal) not found")
+    missed = g.exit in reach(g, [g.entry], did.params[0], {}, avoid=drops_row)
+    res.inst("Concatenator.delete_index_data removes the row from self.index[label] on every normal path", nontrivial=True, ok=not missed)
+    if missed:
+        res.find("Concatenator", "delete_index_data", "a normal path leaves without removing the index row", did.where,
+                 "the caller (fetch_start_index) takes the old entry for removed and appends a new row: the index holds two rows for the same "
+                 "(object, data) pair, fetch_index no longer finds the entity and every later update appends another copy")
     return res
 
 
@@ -898,4 +922,243 @@ def rule_order(ctx) -> RuleResult:
     return res
 
 
-RULES = [rule_pair, rule_rekey, rule_rec, rule_esc, rule_defer, rule_fresh, rule_namekey, rule_skip, rule_order]
+def _memo_attrs(getter, sc):
+    """Attributes of self a property getter memoises: returned as they are on one path, assigned in the getter on another."""
+    stored = {t.attr for a in ast.walk(getter.node) if isinstance(a, (ast.Assign, ast.AnnAssign)) for t in (a.targets if isinstance(a, ast.Assign) else [a.target])
+              if isinstance(t, ast.Attribute) and isinstance(t.value, ast.Name) and t.value.id == getter.params[0]}
+    out = set()
+    for r in ast.walk(getter.node):
+        if isinstance(r, ast.Return) and r.value is not None:
+            for v in sc.sources(r.value):
+                if isinstance(v, ast.Attribute) and isinstance(v.value, ast.Name) and v.value.id == getter.params[0] and v.attr in stored:
+                    out.add(v.attr)
+    return out
+
+
+def rule_memo(ctx) -> RuleResult:
+    res = RuleResult(
+        "C04.MEMO",
+        "C04",
+        "what a Concatenator property computes from the concatenated index / data tables (directly, or as objects that read them: the "
+        "group-wide tables) is either recomputed on every access or kept in an attribute that every method which re-binds or edits "
+        "self.index[...] / self.data[...] resets on all its normal paths (itself, or all of its callers)",
+        floor=1,
+    )
+    p = ctx.p
+    conc = p.cls("Concatenator")
+    me = "self"
+
+    def reads_tables(node, depth=0):
+        """The code reads <x>.index / <x>.data of a concatenator, or builds an object of a package class that does."""
+        for x in ast.walk(node):
+            if isinstance(x, ast.Attribute) and x.attr in ("index", "data", "_index", "_data") and isinstance(x.ctx, ast.Load):
+                return True
+            if depth < 1 and isinstance(x, ast.Call) and isinstance(x.func, ast.Name) and any(isinstance(a, ast.Name) and a.id == me for a in x.args):
+                r = p.resolve_name(conc.module, x.func.id)
+                if r and r[0] == "class" and r[1].node is not None and reads_tables(r[1].node, depth + 1):
+                    return True
+        return False
+
+    # the stores themselves (index / data and the attributes they are loaded into) are not derived values
+    own = {"_index", "_data"}
+    memos = {}
+    for pname, prop in conc.props.items():
+        if prop.getter is None or prop.getter.cls is not conc or pname in ("index", "data"):
+            continue
+        g_ = nview(ctx, prop.getter)
+        attrs = _memo_attrs(g_, Scope(g_, p)) - own
+        if attrs and reads_tables(g_.node):
+            for a in attrs:
+                memos[a] = pname
+    # methods that change the tables: a store / delete / augmented store below self.index or self.data, or a re-binding of the tables
+    def mutates(fn):
+        for x in ast.walk(fn.node):
+            tgs = x.targets if isinstance(x, (ast.Assign, ast.Delete)) else [x.target] if isinstance(x, (ast.AugAssign, ast.AnnAssign)) else []
+            for t in tgs:
+                for e in (t.elts if isinstance(t, ast.Tuple) else [t]):
+                    root, below = e, False
+                    while isinstance(root, ast.Subscript):
+                        root, below = root.value, True
+                    if isinstance(root, ast.Attribute) and isinstance(root.value, ast.Name) and root.value.id == me and \
+                            ((root.attr in ("index", "data") and below) or root.attr in ("_index", "_data")):
+                        return True
+        return False
+
+    mutators = [fn for nm, fn in conc.methods.items() if fn.cls is conc and mutates(fn) and nm != "__init__"]
+    callers = {}
+    for fn in p.all_functions():
+        for c in ast.walk(fn.node):
+            if isinstance(c, ast.Call) and isinstance(c.func, ast.Attribute) and c.func.attr in conc.methods:
+                callers.setdefault(c.func.attr, set()).add(fn)
+    res.inst(f"Concatenator: values derived from the tables and kept across accesses: {sorted(memos.items()) or 'none (recomputed on every access)'}; "
+             f"methods that change the tables: {sorted(f.name for f in mutators)}", nontrivial=True, ok=True)
+    for attr, pname in sorted(memos.items()):
+        def resets(fn, attr=attr):
+            v = nview(ctx, fn)
+            g = CFG(v.node)
+
+            def is_reset(n):
+                if n.kind != "stmt" or not isinstance(n.ast, (ast.Assign, ast.Delete)):
+                    return False
+                return any(isinstance(t, ast.Attribute) and t.attr == attr and isinstance(t.value, ast.Name) and t.value.id == v.params[0]
+                           for t in n.ast.targets)
+
+            return g.exit not in reach(g, [g.entry], v.params[0], {}, avoid=is_reset)
+
+        def covered(fn, seen=()):
+            if fn in seen:
+                return False
+            if fn.cls is conc and resets(fn):
+                return True
+            cs = [c for c in callers.get(fn.name, ()) if c is not fn]
+            return bool(cs) and fn.cls is conc and all(covered(c, seen + (fn,)) for c in cs)
+
+        for m in mutators:
+            ok = covered(m)
+            res.inst(f"Concatenator.{m.name} changes the tables: self.{attr} (kept by `{pname}`) reset by it or by all its callers", nontrivial=True, ok=ok)
+            if not ok:
+                res.find("Concatenator", m.name, f"changes the index / data tables without resetting the value kept by `{pname}`", m.where,
+                         f"`{pname}` hands out what it computed from the tables before the change: the group-wide table cuts the re-ordered "
+                         "concatenated array with the old offsets and lists other holes' values under a hole")
+    return res
+
+
+def rule_channel(ctx) -> RuleResult:
+    res = RuleResult(
+        "C04.CHANNEL",
+        "C04",
+        "the Index dataset and the Data dataset of a data name are written under the same channel: in Concatenator.save_attribute the "
+        "name handed to update_attribute(self, 'index', <n>) and to update_attribute(self, 'data', <n>) on one path are the same value",
+        floor=1,
+    )
+    p = ctx.p
+    conc = p.cls("Concatenator")
+    sa_ = nview(ctx, conc.methods["save_attribute"])
+    sc = Scope(sa_, p)
+    g = CFG(sa_.node)
+
+    def writes(n, what):
+        if n.ast is None or isinstance(n.ast, list) or n.kind == "with":
+            return None
+        for c in ast.walk(n.ast):
+            if isinstance(c, ast.Call) and call_name(c) == "update_attribute" and len(c.args) >= 3 and _const(sc.expand(c.args[1])) == what:
+                return c
+        return None
+
+    idx = [(n, writes(n, "index")) for n in g.nodes if writes(n, "index")]
+    dat = [(n, writes(n, "data")) for n in g.nodes if writes(n, "data")]
+    if not idx or not dat:
+        raise AnalysisError("Concatenator.save_attribute: update_attribute(self, 'index', ..) / (self, 'data', ..) not found")
+    rd = Reaching(sa_.node)
+
+    def same_value(a, na, b, nb):
+        """Both names stand for the same value: same expression over locals that have the same reaching definitions at both sites."""
+        if unparse(a) != unparse(b):
+            ea, eb = sc.expand(a), sc.expand(b)
+            if unparse(ea) != unparse(eb):
+                return False
+            a, b = ea, eb
+        return all([d for d, _ in rd.at(na, x.id)] == [d for d, _ in rd.at(nb, x.id)] for x in ast.walk(a) if isinstance(x, ast.Name) and sc.defs.rebound(x.id))
+
+    for nd, cd in dat:
+        # the index writes that share a path with this data write
+        mates = [(ni, ci) for ni, ci in idx if nd in reach(g, [ni]) or ni in reach(g, [nd])]
+        ok = bool(mates) and all(same_value(ci.args[2], ni, cd.args[2], nd) for ni, ci in mates)
+        res.inst(f"save_attribute:{cd.lineno} data channel `{unparse(cd.args[2])}` = index channel `{', '.join(unparse(ci.args[2]) for _, ci in mates)}`", nontrivial=True, ok=ok)
+        if not ok:
+            res.find("Concatenator", "save_attribute", "Index and Data of a name written under different channel names", f"{sa_.module.relpath}:{cd.lineno}",
+                     "the index goes to the file under the translated label and the values under the untranslated one: for a data set whose name is "
+                     "changed by the KEY_MAP / INV_KEY_MAP round trip ('Text', 'Float', 'cells', ...) the Index dataset is written and the Data dataset "
+                     "is not — re-opening the file raises and no data of the group can be read")
+    return res
+
+
+def rule_columns(ctx) -> RuleResult:
+    res = RuleResult(
+        "C04.COLUMNS",
+        "C04",
+        "the columns of the group-wide depth table are gathered in the order of the names that label them: in "
+        "DrillholesGroupTable._depth_table_by_key the loop that collects parent.data[<name>][...] per hole enumerates the very sequence "
+        "handed to _create_structured_array as column names (not another sequence filtered by membership in it)",
+        floor=1,
+    )
+    p = ctx.p
+    fn = nview(ctx, "DrillholesGroupTable._depth_table_by_key")
+    sc = Scope(fn, p)
+    # the labels: what the function hands to _create_structured_array (as written: the view has that private helper expanded)
+    raw = p.func("DrillholesGroupTable._depth_table_by_key")
+    rsc = Scope(raw, p)
+    mk = [c for c in ast.walk(raw.node) if isinstance(c, ast.Call) and call_name(c) == "_create_structured_array" and len(c.args) >= 2]
+    if not mk:
+        raise AnalysisError("DrillholesGroupTable._depth_table_by_key: _create_structured_array(table, names) not found")
+
+    def label_roots(e):
+        # the sequences the labels are made of: `names`, or `('Drillhole',) + names` on one path
+        out = set()
+        for s_ in rsc.sources(e):
+            for x in ast.walk(s_):
+                if isinstance(x, ast.Name):
+                    out.add(x.id)
+        return out
+
+    labels = set()
+    for c in mk:
+        labels |= label_roots(c.args[1])
+    # the enumerations that pick a column: loops / comprehension generators whose variable subscripts <parent>.data
+    def column_enums(f):
+        found = []
+        for x in ast.walk(f.node):
+            if isinstance(x, ast.Subscript) and isinstance(x.value, ast.Attribute) and x.value.attr in ("data", "_data") and isinstance(x.slice, ast.Name) and isinstance(x.ctx, ast.Load):
+                var = x.slice.id
+                best = None
+                for h in ast.walk(f.node):
+                    if isinstance(h, ast.For) and contains(h, x) and any(isinstance(t, ast.Name) and t.id == var for t in ast.walk(h.target)):
+                        best = (h.iter, h) if best is None or contains(best[1], h) else best
+                    if isinstance(h, (ast.ListComp, ast.GeneratorExp, ast.SetComp, ast.DictComp)) and contains(h, x):
+                        for gen in h.generators:
+                            if any(isinstance(t, ast.Name) and t.id == var for t in ast.walk(gen.target)):
+                                best = (gen.iter, h) if best is None or contains(best[1], h) else best
+                if best is not None and all(best[1] is not e_[1] for e_ in found):
+                    found.append(best)
+        return found
+
+    sites = [(fn, sc, it, at, None) for it, at in column_enums(fn)]
+    if not sites:
+        # the per-hole block built by a helper of the class that is called where the view cannot expand it (inside a comprehension):
+        # the helper's parameters stand for the arguments of the call
+        for c in ast.walk(fn.node):
+            if isinstance(c, ast.Call) and isinstance(c.func, ast.Attribute) and isinstance(c.func.value, ast.Name) and c.func.value.id == fn.params[0] and fn.cls is not None:
+                m = fn.cls.lookup(c.func.attr)
+                if m and m[1] == "method" and m[2].node is not raw.node:
+                    h = nview(ctx, m[2])
+                    hp = h.params[1:] if h.kind != "staticmethod" else h.params
+                    binding = {prm: {x.id for x in ast.walk(a) if isinstance(x, ast.Name)} for i, prm in enumerate(hp) for a in [_arg(c, i, prm)] if a is not None}
+                    sites += [(h, Scope(h, p), it, at, binding) for it, at in column_enums(h)]
+    if not sites:
+        raise AnalysisError("DrillholesGroupTable._depth_table_by_key: enumeration of the columns (parent.data[<name>]) not found")
+    def seq_roots(e):
+        # the names a sequence is enumerated FROM: membership tests and the filters / elements of a comprehension only select
+        if isinstance(e, ast.Compare):
+            return set()
+        if isinstance(e, (ast.ListComp, ast.GeneratorExp, ast.SetComp)):
+            return {r for gen in e.generators for r in seq_roots(gen.iter)}
+        if isinstance(e, ast.Name):
+            return {e.id}
+        if isinstance(e, ast.Lambda):
+            return set()
+        return {r for ch in ast.iter_child_nodes(e) for r in seq_roots(ch)}
+
+    for f, fsc, it, at, binding in sites:
+        roots = {r for s_ in fsc.sources(it) for r in seq_roots(s_)}
+        if binding is not None:
+            roots = {r for nm in roots for r in binding.get(nm, ())}
+        ok = bool(roots & labels)
+        res.inst(f"{f.name}:{getattr(at, 'lineno', 0)} columns enumerated from the sequence that labels them", nontrivial=True, ok=ok)
+        if not ok:
+            res.find("DrillholesGroupTable", "_depth_table_by_key", "columns gathered from another sequence than the one that labels them", f"{f.module.relpath}:{getattr(at, 'lineno', f.node.lineno)}",
+                     "depth_table_by_name(('b', 'a')) labels the columns ('b', 'a') and fills them in the order of the property group: the values of "
+                     "one data set are listed under the name of another")
+    return res
+
+
+RULES = [rule_pair, rule_rekey, rule_rec, rule_esc, rule_defer, rule_fresh, rule_namekey, rule_skip, rule_order, rule_memo, rule_channel, rule_columns]
